@@ -236,7 +236,23 @@ def sk7(iso, L, cfg, hook=_nohook, fp=None):
     return {'files': {'/BBB.;1': L[1], '/CCC.;1': L[0]}, 'dirs': [], 'steps': n}
 
 
-SKELETONS = {'sk1': sk1, 'sk2': sk2, 'sk3': sk3, 'sk4': sk4, 'sk5': sk5, 'sk6': sk6, 'sk7': sk7}
+def sk8(iso, L, cfg, hook=_nohook, fp=None):
+    """divergent trees (needs Joliet): ISO-only and Joliet-only files and directories, non-ASCII Joliet names, a name of 64 characters,
+    a link from an ISO file into the Joliet tree, then removals on one side only   (3 lengths)"""
+    fp = fp or h.InFP()
+    rr = lambda n: n if cfg['rr'] else None   # noqa: E731
+    iso.add_fp(fp, L[0], iso_path='/ISOONLY.;1', rr_name=rr('isoonly')); hook(0)
+    iso.add_fp(fp, L[1], joliet_path='/j\u00f6li\u00e9t \u6587\u4ef6'); hook(1)
+    iso.add_joliet_directory('/jdir'); hook(2)
+    iso.add_directory(iso_path='/IDIR', rr_name=rr('idir')); hook(3)
+    iso.add_fp(fp, L[2], iso_path='/IDIR/BOTH.;1', rr_name=rr('both'), joliet_path='/jdir/' + 'n' * 64); hook(4)
+    iso.add_hard_link(iso_old_path='/ISOONLY.;1', joliet_new_path='/jdir/link to iso'); hook(5)
+    iso.add_fp(fp, L[0], iso_path='/TMP.;1', rr_name=rr('tmp'), joliet_path='/tmp'); hook(6)
+    iso.rm_hard_link(joliet_path='/tmp'); hook(7)
+    return {'files': {'/ISOONLY.;1': L[0], '/IDIR/BOTH.;1': L[2], '/TMP.;1': L[0]}, 'dirs': ['/IDIR'], 'steps': 8}
+
+
+SKELETONS = {'sk1': sk1, 'sk2': sk2, 'sk3': sk3, 'sk4': sk4, 'sk5': sk5, 'sk6': sk6, 'sk7': sk7, 'sk8': sk8}
 
 
 # ---- object collection (what occupies which sectors) ----------------------------------------------
